@@ -1136,7 +1136,7 @@ func TestVerifC04NearCapacity(t *testing.T) {
 func TestVerifC04HourRollover(t *testing.T) {
 	vfSetup(t)
 	c := ev.For("C04")
-	c.Rule("hour-rollover (opportunistic): when the next full hour of the real clock is at most B seconds away (quick B = 10, thorough B = 150, VERIF_C04_WAIT_ROLLOVER overrides), handshakes stamped with the current and the next hour are accepted before the rollover and replayed after it; oracle: every replay is refused like invalid input although the server's hour has changed, fresh handshakes are accepted; otherwise the unit is skipped and counted")
+	c.Rule("hour-rollover (opportunistic): when the next full hour of the real clock is at most B seconds away (quick B = 10, thorough B = 150, VERIF_C04_WAIT_ROLLOVER overrides), handshakes stamped with the current and the next hour are accepted before the rollover and replayed after it; four connections are accepted at most 15 s before the rollover and receive their handshakes (stamped +1, -2, 0, -1 relative to the new hour) after it; oracle: every replay is refused like invalid input although the server's hour has changed, fresh handshakes are accepted, the straddling connections judge their handshake by the hour in force when it arrives; otherwise the unit is skipped and counted")
 	budget := 10
 	if ev.Thorough() {
 		budget = 150
@@ -1176,10 +1176,56 @@ func TestVerifC04HourRollover(t *testing.T) {
 		}
 		accepted = append(accepted, acc{hs, off})
 	}
+	// connections that are ACCEPTED before the rollover (at most 15 s before it: the 30 s handshake timer is
+	// running) and whose handshake arrives after it: the hour window is the one of the moment the handshake
+	// is evaluated
+	var early []*vfSrvConn
 	for vfHourNow() == hour0 {
+		if early == nil && 3600-int(time.Now().Unix()%3600) <= 15 {
+			early = []*vfSrvConn{}
+			for k := 0; k < 4; k++ {
+				sc, err := vfOpenServerConn(sf)
+				if sc != nil {
+					defer sc.n.Shutdown()
+				}
+				if err != nil {
+					t.Fatalf("VIOL[c04-wedge]: %v", err)
+				}
+				early = append(early, sc)
+			}
+		}
 		time.Sleep(200 * time.Millisecond)
 	}
 	time.Sleep(300 * time.Millisecond)
+	hour1 := vfHourNow()
+	for k, sc := range early {
+		off := []int64{1, -2, 0, -1}[k]
+		cl := &refobfs4.Client{ID: refobfs4.Identity{Pub: br.ID.Pub, NodeID: br.ID.NodeID}, Key: refobfs4.NewEKey(ent),
+			Pad: ent(refobfs4.ClientMinPad + 10*k), Hour: hour1 + off}
+		sc.n.Inject(wire.A, append([]byte(nil), cl.Handshake()...))
+		sc.n.ReleaseAll(wire.A)
+		if err := sc.n.WaitQuiescent(wire.B); err != nil {
+			t.Fatalf("VIOL[c04-wedge]: %v", err)
+		}
+		if pv, st := sc.ep.Panic(); pv != nil {
+			t.Fatalf("VIOL[c04-panic]: %v\n%s", pv, st)
+		}
+		got := sc.ep.SetupDone() && sc.ep.SetupErr() == nil
+		want := off >= -1 && off <= 1
+		if got != want {
+			t.Fatalf("VIOL[c04-window-of-accept-time]: a connection accepted shortly before the full hour receives, after the rollover, a handshake stamped %+d relative to the bridge's clock at that moment: accepted=%v, want %v (the hour window must be the one in force when the handshake is evaluated)", off, got, want)
+		}
+		if want {
+			if _, err := cl.ParseResponse(sc.n.Take(wire.B)); err != nil {
+				t.Fatalf("VIOL[c04-reply-not-bound-to-client-hour]: handshake stamped %+d on a connection that straddles the full hour: %v", off, err)
+			}
+		} else if w := sc.n.Written(wire.B); w != 0 {
+			t.Fatalf("VIOL[c04-not-silent]: out-of-window handshake (%+d) on a connection that straddles the full hour got %d bytes", off, w)
+		}
+	}
+	if early != nil {
+		c.Class("hour-rollover-straddling-connections", int64(len(early)))
+	}
 	for i, a := range accepted {
 		sc, err := vfOpenServerConn(sf)
 		if sc != nil {
